@@ -5,7 +5,9 @@ the harness from /repo's current smt sources -> run both on the same histories o
 unit clauses / assume / pop, compare after every operation (returned id / literal, propagate() result, decision level,
 nvars, the current assignment of every propositional variable, the clause set simplified by the root assignment, the
 reported domain value(v) and the literal allows(v, k) of every value) -> judge the implementation directly by truth table
-(exactly one value per enforced variable, equality literal <-> same value, taken value inside the reported domain).
+(exactly one value per enforced variable, equality literal <-> same value, taken value inside the reported domain), and after EVERY
+operation, at every decision level, value(v) must be exactly { x : sat.value(allows(v, x)) != False } on the implementation's own
+literal values (ov:value-set).
 """
 import json
 import os
@@ -98,6 +100,8 @@ class Campaign:
         for ln in out:
             if ln.startswith("J FAIL"):
                 return ln
+            if " vs=FAIL" in ln:
+                return "J FAIL value-set " + ln[ln.index(" vs=FAIL") + 9:].split(" ")[0]
         return None
 
     def shrink(self, h, still, budget=50):
@@ -134,7 +138,9 @@ class Campaign:
                                  "implementation_output": out[:len(render(hs))], "judge": f2,
                                  "statement": {"exactly-one": "an enforced object variable has exactly one true value literal in every model",
                                                "equality": "the literal of new_eq is true exactly when both variables take the same value",
-                                               "domain": "the value taken lies in the reported domain value(v)"}.get(kind, kind)})
+                                               "domain": "the value taken lies in the reported domain value(v)",
+                                               "value-set": "value(v) is exactly the set of values whose literal is not False (checked after every operation, "
+                                                            "at every decision level, on the implementation's own literal values)"}.get(kind, kind)})
 
     def run(self):
         if self.done:
@@ -170,6 +176,8 @@ class Campaign:
             hists.append(satenc_ov_gen.gen_history(rng, small=False))
         for _ in range(80 if not ctx.thorough else 500):
             hists.append(satenc_ov_gen.gen_wide_history(rng))
+        for _ in range(400 if not ctx.thorough else 5000):
+            hists.append(satenc_ov_gen.gen_multi_true_history(rng))
         lines, spans = [], []
         for h in hists:
             ls = render(h)
@@ -187,7 +195,7 @@ class Campaign:
             ctx.violation("corr:ov:oracle-aborted", {"kind": "oracle-aborted", "rc": r2.rc, "stderr": r2.err[-800:]}, no_input=True)
             return
         dist = {}
-        ops = judged = skipped = weak = dead = req_judged = 0
+        ops = judged = skipped = weak = dead = req_judged = value_checked = 0
         ok_hist = 0
         nontrivial = set()
         mism, jfail = [], []
@@ -203,6 +211,10 @@ class Campaign:
                     dead += 1
                     break
             ops += sum(1 for ln in hl[:cut] if not ln.startswith("J"))
+            vfail = next((k for k in range(n) if " vs=FAIL" in il[k]), None)
+            if vfail is not None:
+                jfail.insert(0, (hi, "J FAIL value-set " + il[vfail][il[vfail].index(" vs=FAIL") + 9:].split(" ")[0]))
+            value_checked += sum(1 for k in range(n) if " vs=ok" in il[k])
             for k in range(cut):
                 if hl[k] == "JQ" and il[k].startswith("J ok"):
                     req_judged += 1
@@ -259,6 +271,7 @@ class Campaign:
         cov["histories_cut_at_conflict_or_failed_assert"] = dead
         cov["judged_by_truth_table"] = judged
         cov["equalities_judged_right_after_the_request"] = req_judged
+        cov["operations_with_value_sets_judged"] = value_checked
         cov["judge_skipped_more_than_%d_vars" % JUDGE_VARS] = skipped
         cov["judge_failures"] = len(jfail)
         cov["conservativity_notes_count"] = weak
